@@ -225,6 +225,21 @@ pub fn dir_requests(ctx: &mut Ctx, rng: &mut Rng) {
                 let _ = std::fs::write(holder.join(format!("Ver{}.sol", i)), format!("pragma solidity {};\n{}", v, body));
             }
         }
+        // one tree in seven: a chain of 12-30 nested directories with an eligible file at the bottom and one half-way
+        // ("at any depth")
+        if k % 7 == 2 {
+            let levels = 12 + rng.below(19);
+            let mut cur = dir.clone();
+            for lvl in 0..levels {
+                cur = cur.join(format!("n{}", lvl % 10));
+                let _ = std::fs::create_dir(&cur);
+                if lvl == levels / 2 {
+                    let _ = std::fs::write(cur.join("Mid.sol"), pooled_contract(rng, &mut pool));
+                }
+            }
+            let _ = std::fs::write(cur.join("Deep.sol"), pooled_contract(rng, &mut pool));
+            ctx.count("dir_trees_with_deep_chain", 1);
+        }
         // two trees in five: symbolic links inside the analysed tree to a directory and to a file that lie outside it
         // (the code follows them: `Path::is_dir`, `read_to_string`)
         let ext = root.join(format!("ext{}", k));
